@@ -19,6 +19,7 @@ pub mod c18;
 pub mod c19;
 pub mod c20;
 pub mod clock;
+pub mod hot;
 pub mod reports;
 pub mod sendfault;
 
